@@ -23,7 +23,7 @@ def run_machine(cases, chunk=15000, coverage=False, allow_same_violation=False):
         def on_print(v, lo=lo, part=part):
             out[lo + v['tid'] - 1] = v['outs'] if 'spellings' in part[v['tid'] - 1] else v['outs'][0]
         res = tlc.run('DTParse', CFG, files={'cases.json': js}, on_print=on_print, keep_prints=False,
-                      timeout=3400, coverage=coverage, extra_java=['-Xss16m'])
+                      timeout=3400, coverage=False, extra_java=['-Xss16m'])     # TLC's -coverage exits silently on this module
         if res.violated and not (res.violated == 'SameProgram' and allow_same_violation):
             raise tlc.TLCFailure('DTParse machine violates %s\n%s' % (res.violated, (res.error_trace or '')[:2500]))
         if res.violated:
